@@ -322,3 +322,20 @@ Proof.
   split; [vm_cast_no_check (@eq_refl (res (store ZOps)) (Ok c01_rsi_r))|].
   split; reflexivity.
 Qed.
+
+(* ... and on a collapsing timeframe: the state after the raw stream xs is Dst (one calculate() over
+   resample tf xs, which is what any earlier schedule ends in by the same theorem); appending ys
+   re-collapses Dst ++ ys - calculated buckets followed by raw candles - and calculates; the result
+   is the batch result over the resampled whole stream: a bucket that takes in a candle is rebuilt
+   by merge, which resets the reading and the helper entry, so the running sums / averages restart
+   from the previous closed bucket exactly as in the batch run *)
+Theorem C01_data_series_append_on_timeframe :
+  forall (O : NumOps) (I : ind O) (key : string), data_node O I key -> data_kind O I key ->
+  forall (tf : Z) (xs ys : list (cd (payload O))) (Dst : store O),
+  0 < tf -> sorted (payload O) (xs ++ ys)%list -> Forall (fresh_data O I) (xs ++ ys)%list ->
+  calculate O I (resample (payload O) (Candle.merge O) tf xs) = Ok Dst ->
+  exists Mst, collapse (payload O) (Candle.merge O) tf (Dst ++ ys)%list = Ok Mst /\
+              calculate O I Mst = calculate O I (resample (payload O) (Candle.merge O) tf (xs ++ ys)%list).
+Proof. exact data_append_on_timeframe. Qed.
+Print Assumptions C01_data_series_append_on_timeframe.
+
